@@ -231,6 +231,9 @@ def build():
                 "impl From<&str> for HttpError", "impl From<String> for HttpError",
                 "impl From<reqwest::Error> for HttpError"]:
         u.verify(H, imp, "http", props=["C08"])
+    u.verify(H, "HttpError::is_acme_err", "http", props=["C11", "C08"], fns={"is_acme_err": FnSpec(ret="r", sig="""
+    ensures r == (match *self { HttpError::ApiError(e) => acme_type_of(e) == acme_error, HttpError::GenericError(_) => false }), //@C11.an_error_is_taken_for_an_acme_error_of_a_type_only_when_it_is_one,C08.an_error_is_taken_for_an_acme_error_of_a_type_only_when_it_is_one
+""")})
     u.stub(H, "ValidHttpResponse::json", "http", fns={"json": c["json"]})
     u.stub(H, "is_nonce", "http", fns={"is_nonce": c["is_nonce"]})
     u.verify(H, "ValidHttpResponse::from_response", "http", props=["C08", "C02"], fns={"from_response": c["from_response"]})
